@@ -20,6 +20,8 @@ mod ast;
 mod builtins;
 mod eval;
 mod lexer;
+#[cfg(feature = "verif")]
+mod verif;
 
 use lalrpop_util::ParseError;
 use snafu::ResultExt;
@@ -50,6 +52,11 @@ lalrpop_mod!(
 );
 
 fn main() {
+    #[cfg(feature = "verif")]
+    if verif::dump_mode() {
+        return;
+    }
+
     let mut args = std::env::args();
     let prog =
         match args.next() {
@@ -88,6 +95,9 @@ fn main() {
                     format!("{ln}:{ch}: {msg}")
                 },
                 Error::EvalFailed{source, path} => {
+                    #[cfg(feature = "verif")]
+                    verif::ev_error_chain(&source);
+
                     let st = eval_err_to_stacktrace(&path, None, source);
 
                     let mut rendered_stacktrace = String::new();
